@@ -36,6 +36,7 @@ import c10_classes as K  # noqa: E402
 from c03_lib import Ref  # noqa: E402
 
 KINDS = ['file', 'demo:file:mapping', 'demo:mapping:mapping', 'mapping']
+HEX_KINDS = ['hex:file', 'hex:demo:file:mapping', 'hex:demo:mapping:mapping']
 RECORD_CLASSES = [(11, 0), (11, 0), (12, 0), (13, 1), (11, 2), (1, 0), (2, 0), (3, 0), (4, 0), (9, 0), (8, 0),
                   (9, 2), (14, 1)]
 
@@ -86,7 +87,16 @@ def gen_storage_case(rng, kind):
     oids = rng.sample([1, 7, 300], noid)
     klass = {oid: rng.choice(RECORD_CLASSES) for oid in oids}
 
+    written = {oid: [] for oid in oids}
+
     def rec(oid, c=None, a=None):
+        r = rec0(oid, c, a)
+        if c is None and written[oid] and rng.random() < 0.2:
+            r = rng.choice(written[oid][-2:])      # byte-identical to a concurrent writer's pickle
+        written[oid].append(r)
+        return r
+
+    def rec0(oid, c=None, a=None):
         c, a = klass[oid] if c is None else (c, a)
         if c == 1:
             tree = rng.randrange(50)
@@ -98,7 +108,7 @@ def gen_storage_case(rng, kind):
     ops = []
     tid = 10
     tids = {oid: [] for oid in oids}
-    if kind.startswith('demo') and rng.random() < 0.5:
+    if 'demo' in kind and rng.random() < 0.5:
         ops.append('base 5 %d %s' % (oids[0], rec(oids[0])))
         tids[oids[0]].append(5)
     t = 0
@@ -229,8 +239,14 @@ def gen_db_case(rng, kind):
     xcls = rng.choice(['Merge11', 'Merge11', 'Merge12', 'NewArgs', 'Counter', 'Raises', 'Conflicts', 'Plain'])
     nconn = rng.choice([2, 2, 3])
 
+    specs = []
+
     def spec():
-        return ['int', rng.randrange(50)] if xcls == 'Counter' else gen_spec(rng, rng.choice([1, 2, 3]))
+        sp = ['int', rng.randrange(50)] if xcls == 'Counter' else gen_spec(rng, rng.choice([1, 2, 3]))
+        if specs and rng.random() < 0.2:
+            sp = rng.choice(specs[-2:])        # the same wanted state as a concurrent writer
+        specs.append(sp)
+        return sp
     prog = []
     for _ in range(rng.choice([4, 6, 9])):
         c = rng.randrange(nconn)
@@ -551,16 +567,16 @@ def main(argv=None):
                     with open(os.path.join(cdir, fn)) as f:
                         cases.append(json.load(f))
         n_st, n_un, n_db = (100, 60, 60) if not ck.thorough else (4000, 2000, 2000)
-        for kind in KINDS:
-            for _ in range(n_st if kind != 'mapping' else n_st // 4):
+        for kind in KINDS + HEX_KINDS:
+            for _ in range(n_st // 4 if kind == 'mapping' else n_st // 2 if kind in HEX_KINDS else n_st):
                 cases.append(gen_storage_case(ck.rng, kind))
-        for kind in ('file', 'demo:file:mapping'):
-            for _ in range(n_un):
+        for kind in ('file', 'demo:file:mapping', 'hex:file', 'hex:demo:file:mapping'):
+            for _ in range(n_un if kind[:3] != 'hex' else n_un // 2):
                 cases.append(gen_undo_case(ck.rng, kind))
-            for _ in range(n_un):
+            for _ in range(n_un if kind[:3] != 'hex' else n_un // 2):
                 cases.append(gen_undo_chain_case(ck.rng, kind))
-        for kind in KINDS[:3]:
-            for _ in range(n_db):
+        for kind in KINDS[:3] + HEX_KINDS:
+            for _ in range(n_db if kind[:3] != 'hex' else n_db // 2):
                 cases.append(gen_db_case(ck.rng, kind))
     results = run_all(ck, cases)
     lines, spans = [], []
